@@ -337,6 +337,7 @@ func cmdCheck(args []string) {
 	perCheck := 10000
 	if *tier == "thorough" {
 		perCheck = 60000
+		confirmSecond = true
 	}
 	os.MkdirAll("/root/scratch/digvc", 0o755)
 	smtDir, derr := os.MkdirTemp("/root/scratch/digvc", strings.ReplaceAll(*prop, ",", "_")+"-")
@@ -671,6 +672,7 @@ func writeEvidence(verif, prop, tier string, seed int, w *World, res *checkResul
 		"solver_time_ms_max":       res.maxMs,
 		"goals_by_solver":          res.solverUsed,
 		"bounded":                  []interface{}{},
+		"second_solver":            secondSolverSummary(claimed),
 		"explanation":              fmt.Sprintf("contract-based deductive verification: %d claimed obligations generated from the SSA of /repo's working tree, %d discharged (unsat) on this run", len(claimed), discharged),
 	}
 	assumptions := append([]string{
@@ -712,3 +714,37 @@ func modelFor(g *Goal) string {
 }
 
 var _ = ssa.NaiveForm
+
+// secondSolverSummary: thorough tier only; how many claimed obligations were
+// also decided by the second solver configuration.
+func secondSolverSummary(claimed []*obligation) map[string]interface{} {
+	conf, unk, total := 0, 0, 0
+	for _, o := range claimed {
+		if len(o.goals) == 0 {
+			continue
+		}
+		total++
+		all := true
+		seen := false
+		for _, g := range o.goals {
+			if g.expect == "cover" {
+				continue
+			}
+			if g.second != "" {
+				seen = true
+			}
+			if g.second != "unsat" {
+				all = false
+			}
+		}
+		if !seen {
+			continue
+		}
+		if all {
+			conf++
+		} else {
+			unk++
+		}
+	}
+	return map[string]interface{}{"solver": "z3-4.8.12 on the same incremental scripts (thorough tier only)", "obligations_with_goals": total, "confirmed_unsat": conf, "not_confirmed": unk}
+}
